@@ -4,9 +4,9 @@ CONSTANTS
   NMin = 2
   NMax = 4
   NCol = 4
-  Wids = {1,3,7}
-  H = 50
-  U = 25
+  Wids = {1,7}
+  H = 100
+  U = 1
   AlgVariant = "ok"
   Export = FALSE
 INVARIANT ModelCovered
@@ -15,6 +15,7 @@ INVARIANT ModelPermutationInvariant
 INVARIANT ModelBetween
 INVARIANT OnLattice
 INVARIANT AlgRefinesObs
+INVARIANT WinIsBinning
 INVARIANT FitsInv
 CONSTRAINT Emit
 CHECK_DEADLOCK FALSE
